@@ -370,6 +370,9 @@ func (l *Lowerer) lowerCommon(t *Term) string {
 		case SReal:
 			n, d := t.Rat.Num(), t.Rat.Denom()
 			if d.Cmp(bigOne) == 0 {
+				if n.Sign() < 0 {
+					return "(- " + new(big.Int).Neg(n).String() + ".0)"
+				}
 				return sInt(n) + ".0"
 			}
 			if n.Sign() < 0 {
